@@ -21,6 +21,8 @@ import (
 	"sync"
 	"time"
 
+	"github.com/btcsuite/btcd/chaincfg/v2"
+
 	c "verifharness/internal/common"
 	ns "verifharness/internal/netsim"
 	qs "verifharness/internal/qskel"
@@ -29,8 +31,11 @@ import (
 // Hist is a scenario plus its observations.
 type Hist struct {
 	ns.Scenario
-	Kinds []string   `json:"kinds"` // behaviour names of nodes 2.., for the histogram
-	Res   *ns.Result `json:"result,omitempty"`
+	Kinds []string `json:"kinds"` // behaviour names of nodes 2.., for the histogram
+	// Net: "" = simnet; "regtest" scenarios run in a second batch (the chain
+	// parameters are process-wide in netsim).
+	Net string     `json:"net,omitempty"`
+	Res *ns.Result `json:"result,omitempty"`
 }
 
 type mis struct {
@@ -267,6 +272,36 @@ func genHiccup(r *rand.Rand, id int, seed, tipUnix int64, k, nmis int, pick []in
 	return h
 }
 
+// genDeepReorg: the honest chain is LONGER than one headers message (2000):
+// the client syncs it (two getheaders rounds, filter checkpoints), then the
+// honest side reorganises its last d blocks to a heavier branch and announces
+// the new tip by inv.  The scripted node answers getheaders as a real node
+// does (first locator hash on its best chain, else from the genesis block, at
+// most 2000 headers), so the client finds the fork only if its locator
+// reaches below its own tip (seeded change C04 round 7: locator = tip only).
+func genDeepReorg(r *rand.Rand, id int, seed, tipUnix int64, chainLen, depth int, second string) Hist {
+	h := Hist{}
+	h.ID, h.Seed, h.TipUnix = id, seed, tipUnix
+	h.ChainLen = chainLen
+	h.Nodes = []ns.NodeSpec{{Chain: "main"}}
+	h.Kinds = []string{fmt.Sprintf("long-chain-reorg-%d", depth)}
+	h.Net = "regtest" // on simnet the client asks for more headers after EVERY headers message
+	if second != "" {
+		h.Nodes = append(h.Nodes, misList[idx(second)].mk(r, chainLen))
+		h.Kinds = append(h.Kinds, second)
+	}
+	t := 3500 + r.Intn(500)
+	h.Events = []ns.Event{{AtMs: t, Kind: "reorg", Depth: depth, N: 1 + r.Intn(3)}}
+	if r.Intn(2) == 0 {
+		h.Events = append(h.Events, ns.Event{AtMs: t + 400 + r.Intn(400), Kind: "extend", N: 1 + r.Intn(2)})
+	}
+	h.DeadlineMs = 40000
+	h.StopWhenConverged = true
+	h.MinRunMs = h.Events[len(h.Events)-1].AtMs + 300
+	h.GrowEveryMs, h.GrowCount = 20000, 1
+	return h
+}
+
 func idx(name string) int {
 	for i, m := range misList {
 		if m.name == name {
@@ -409,6 +444,18 @@ func main() {
 		// verack: alone, and next to a misbehaving node (seeded change C04-8)
 		hs = append(hs, genHiccup(c.Rng(a.Seed, 907), 7, a.Seed, tip, 1, 0, nil))
 		hs = append(hs, genHiccup(c.Rng(a.Seed, 908), 8, a.Seed, tip, 2, 1, []int{idx("lighter-fork")}))
+		// a chain longer than one headers message, then an honest-side
+		// reorganisation announced by inv (seeded change C04 round 7)
+		longLen := 2100 + 10*c.Rng(a.Seed, 909).Intn(51)
+		hs = append(hs, genDeepReorg(c.Rng(a.Seed, 910), 9, a.Seed, tip, longLen, 5, ""))
+		hs = append(hs, genDeepReorg(c.Rng(a.Seed, 911), 10, a.Seed, tip, longLen, 12, "block-liar"))
+		if a.Tier == "thorough" {
+			rr := c.Rng(a.Seed, 912)
+			for k, d := range []int{1, 5, 12, 1, 12} {
+				second := []string{"", "block-liar", "cfilter-garbage", "no-witness-bit", ""}[k]
+				hs = append(hs, genDeepReorg(rr, 11+k, a.Seed, tip, 2100+10*rr.Intn(51), d, second))
+			}
+		}
 		n, nlong := 10, 1
 		if a.Tier == "thorough" {
 			n, nlong = 130, 16
@@ -433,21 +480,28 @@ func main() {
 	if err != nil {
 		panic(err)
 	}
-	for i := range hs {
-		ns.CachedChain(hs[i].Seed, hs[i].ChainLen, time.Unix(hs[i].TipUnix, 0), 0.3)
+	runBatch := func(net string) {
+		var wg sync.WaitGroup
+		sem := make(chan struct{}, a.Workers)
+		for i := range hs {
+			if hs[i].Net != net {
+				continue
+			}
+			ns.CachedChain(hs[i].Seed, hs[i].ChainLen, time.Unix(hs[i].TipUnix, 0), 0.3)
+			wg.Add(1)
+			sem <- struct{}{}
+			go func(h *Hist) {
+				defer wg.Done()
+				defer func() { <-sem }()
+				h.Res = ns.RunScenario(&h.Scenario, work)
+			}(&hs[i])
+		}
+		wg.Wait()
 	}
-	var wg sync.WaitGroup
-	sem := make(chan struct{}, a.Workers)
-	for i := range hs {
-		wg.Add(1)
-		sem <- struct{}{}
-		go func(h *Hist) {
-			defer wg.Done()
-			defer func() { <-sem }()
-			h.Res = ns.RunScenario(&h.Scenario, work)
-		}(&hs[i])
-	}
-	wg.Wait()
+	runBatch("")
+	simnet := ns.Params
+	ns.SetParams(chaincfg.RegressionNetParams)
+	runBatch("regtest")
 	// netsim runs on the wall clock: a scenario during which this process
 	// was starved (far fewer 20 ms polls than its duration allows: other
 	// jobs, memory pressure) and which did not converge says nothing about
@@ -455,12 +509,17 @@ func main() {
 	starved := func(r *ns.Result) bool {
 		return r.SetupErr == "" && !r.Converged && r.RunMs > 2000 && float64(r.Polls) < 0.6*float64(r.RunMs)/20
 	}
-	for i := range hs {
-		for try := 0; try < 2 && starved(hs[i].Res); try++ {
-			rep.Histogram["starved-rerun"]++
-			hs[i].Res = ns.RunScenario(&hs[i].Scenario, work)
+	rerun := func(net string) {
+		for i := range hs {
+			for try := 0; hs[i].Net == net && try < 2 && starved(hs[i].Res); try++ {
+				rep.Histogram["starved-rerun"]++
+				hs[i].Res = ns.RunScenario(&hs[i].Scenario, work)
+			}
 		}
 	}
+	rerun("regtest")
+	ns.SetParams(simnet)
+	rerun("")
 
 	var sb strings.Builder
 	sb.WriteString("From Coq Require Import ZArith List Bool.\nFrom Verif Require Import C04net.Replay.\nFrom Verif Require C04.Replay.\nImport ListNotations.\nOpen Scope Z_scope.\n")
